@@ -92,7 +92,7 @@ Record Rel (c0 : Z) (q : ost) (s : st) : Prop := mkRel {
   R_client : client_id s = c0;
   R_now : q_now q = now s;
   R_closed : q_closed q = closed s;
-  R_corr : next_corr s = q_max q + 1;
+  R_corr : q_max q < next_corr s;
   R_h : q_hmax q <= next_h s;
   R_cs : q_close_sent q = close_sent s;
   R_ids : Forall (fun r => r <= q_max q) (reg_ids (q_regs q));
@@ -115,23 +115,24 @@ Lemma ids_fresh q r k : Forall (fun r => r <= q_max q) (reg_ids (q_regs q)) -> q
 Proof. intros F H. destruct (rlookup k r (q_regs q)) eqn:E; auto. apply rlookup_some_id in E.
   rewrite Forall_forall in F. specialize (F _ E). lia. Qed.
 
+Lemma rel_next_corr c0 q s : Rel c0 q s -> Rel c0 q (set_next_corr (next_corr s + 1) s).
+Proof. intros R. destruct R. constructor; cbn; auto. lia. Qed.
+
 (* ---- add ---- *)
-Lemma sim_add c0 tdrv c q s k a1 a2 a3 :
+Lemma sim_add c0 tdrv full c q s k a1 a2 a3 :
   c_tdrv c = tdrv -> inv s -> Rel c0 q s ->
-  exists q', c09_step c0 tdrv q (Add k a1 a2 a3) (snd (do_add k a1 a2 a3 s)) = Next q' /\ Rel c0 q' (fst (do_add k a1 a2 a3 s)).
+  exists q', c09_step c0 tdrv full q (Add k a1 a2 a3) (snd (do_add k a1 a2 a3 s)) = Next q' /\ Rel c0 q' (fst (do_add k a1 a2 a3 s)).
 Proof. intros Hc I R. destruct (do_add k a1 a2 a3 s) as [s' [[r cbs] cmds]] eqn:E. cbn [fst snd].
   pose proof (add_result k a1 a2 a3 s) as Hr. rewrite E in Hr. cbn in Hr.
   destruct Hr as [Hr|Hr].
   - subst r. destruct (add_accepted _ _ _ _ _ _ _ _ _ E) as (_ & -> & -> & Hl & Hn & Ha & Hcl & Hfr).
     destruct R. cbn [c09_step]. rewrite R_client0.
     replace (q_max q <? next_corr s) with true by lia. cbn [existsb negb andb]. rewrite cmd_eqb_refl.
-    eexists. split; [reflexivity|]. constructor; cbn; auto; try lia.
-    + pose proof (add_rejected k a1 a2 a3 s) as _. unfold do_add in E. rewrite Ha, Hcl in E. cbn in E.
-      destruct (kind_eqb k KCtr && _); inversion E; subst. rewrite setm_client_id. reflexivity.
-    + unfold do_add in E. rewrite Ha, Hcl in E. cbn in E. destruct (kind_eqb k KCtr && _); inversion E; subst. rewrite setm_now. auto.
-    + unfold do_add in E. rewrite Ha, Hcl in E. cbn in E. destruct (kind_eqb k KCtr && _); inversion E; subst. rewrite setm_closed. auto.
-    + unfold do_add in E. rewrite Ha, Hcl in E. cbn in E. destruct (kind_eqb k KCtr && _); inversion E; subst. rewrite setm_next_h. auto.
-    + unfold do_add in E. rewrite Ha, Hcl in E. cbn in E. destruct (kind_eqb k KCtr && _); inversion E; subst. rewrite setm_close_sent. auto.
+    assert (Hs' : s' = setm k (ins (next_corr s) (new_entry (now s) a1 a2 a3) (getm k (set_next_corr (next_corr s + 1) s))) (set_next_corr (next_corr s + 1) s)).
+    { unfold do_add in E. rewrite Ha, Hcl in E. cbn [negb] in E. destruct (kind_eqb k KCtr && _); [discriminate|].
+      destruct (ring_full s); [discriminate|]. inversion E. reflexivity. }
+    subst s'. eexists. split; [reflexivity|].
+    constructor; cbn [set_qmax set_regs q_now q_closed q_regs q_max q_hmax q_close_sent]; rewrite ?setm_client_id, ?setm_now, ?setm_closed, ?setm_next_corr, ?setm_next_h, ?setm_close_sent; cbn [client_id now closed next_corr next_h close_sent set_next_corr]; auto; try lia.
     + unfold reg_ids. rewrite map_app. apply Forall_app. split; [|constructor; [cbn; lia|constructor]].
       eapply Forall_impl; [|exact R_ids0]. cbn. intros. lia.
     + intros k1 k2 r' H1 H2. rewrite rlookup_app in H1, H2.
@@ -150,13 +151,14 @@ Proof. intros Hc I R. destruct (do_add k a1 a2 a3 s) as [s' [[r cbs] cmds]] eqn:
       * rewrite Hfr.
         -- specialize (R_pt0 Hcl k' r'). destruct (rlookup k' r' (q_regs q)); exact R_pt0.
         -- destruct (kind_eqb k k') eqn:E5; [right|left; apply kind_eqb_neq in E5; congruence]. cbn in E3. lia.
-  - assert (Hx : exists e, r = Err e) by (destruct Hr as [Hr|[Hr|Hr]]; subst r; eauto). destruct Hx as (e & He). subst r.
-    destruct (add_rejected _ _ _ _ _ _ _ _ _ E) as (-> & -> & ->). cbn. exists q. split; auto. Qed.
+  - assert (Hx : exists e, r = Err e) by (destruct Hr as [Hr|[Hr|[Hr|Hr]]]; subst r; eauto). destruct Hx as (e & He). subst r.
+    destruct (add_rejected _ _ _ _ _ _ _ _ _ E) as (Hs' & -> & ->). cbn. exists q. split; auto.
+    destruct Hs' as [->|(_ & _ & ->)]; auto. apply rel_next_corr. exact R. Qed.
 
 (* re-establishing the relation after a step that only touches the registration (k, r) *)
 Lemma rel_frame c0 q s q' s' k r :
   Rel c0 q s ->
-  client_id s' = client_id s -> q_now q' = now s' -> q_closed q' = closed s' -> next_corr s' = q_max q' + 1 ->
+  client_id s' = client_id s -> q_now q' = now s' -> q_closed q' = closed s' -> q_max q' < next_corr s' ->
   q_hmax q' <= next_h s' -> q_close_sent q' = close_sent s' -> q_max q <= q_max q' ->
   reg_ids (q_regs q') = reg_ids (q_regs q) -> uniq (q_regs q') -> (closed s' = false -> closed s = false) ->
   (forall k' r', k' <> k \/ r' <> r ->
@@ -209,9 +211,9 @@ Proof. unfold do_find. destruct (closed s); [cbn; eauto|].
   destruct k; destruct (e_obj e) as [o|]; try destruct (o_user o); destruct (e_status e); try destruct (timed_out c s e); cbn [fst];
     try exact Hs; try apply Hu; try exact Hr. Qed.
 
-Lemma sim_find c0 tdrv c q s k r :
+Lemma sim_find c0 tdrv full c q s k r :
   c_tdrv c = tdrv -> inv s -> Rel c0 q s ->
-  exists q', c09_step c0 tdrv q (Find k r) (snd (do_find c k r s)) = Next q' /\ Rel c0 q' (fst (do_find c k r s)).
+  exists q', c09_step c0 tdrv full q (Find k r) (snd (do_find c k r s)) = Next q' /\ Rel c0 q' (fst (do_find c k r s)).
 Proof. intros Hc I R. pose proof (do_find_frame c k r s) as F.
   destruct F as (F1 & F2 & F3 & F4 & F5 & F6 & F7).
   destruct (closed s) eqn:Ecl.
@@ -241,7 +243,7 @@ Proof. intros Hc I R. pose proof (do_find_frame c k r s) as F.
         - destruct P as (o & -> & Hu & _). exact Hu. }
       destruct (find_first c k r s e Ek Ecl He Hsh) as (s' & Hf & (o' & Ho' & Hu' & Hh' & Hfo) & Hnh & Hfr). rewrite Hf in *. cbn [fst snd] in *.
       set (q' := mkO (q_now q) false (rset k r (LReady (Some (next_h s)) d1 d2 d3) (q_regs q)) (q_max q) (next_h s + 1) (q_close_sent q)).
-      assert (Hstep : c09_step c0 tdrv q (Find k r) (Ok [next_h s], [], []) = Next q').
+      assert (Hstep : c09_step c0 tdrv full q (Find k r) (Ok [next_h s], [], []) = Next q').
       { cbn [c09_step]. rewrite Hqc, Ex. replace (res_ok1 (Ok [next_h s])) with (Some (next_h s)) by reflexivity.
         replace (q_hmax q <=? next_h s) with true by (pose proof (R_h _ _ _ R); lia). destruct k; try congruence; reflexivity. }
       exists q'. split; [exact Hstep|].
@@ -271,7 +273,7 @@ Proof. intros Hc I R. pose proof (do_find_frame c k r s) as F.
       rewrite Hqc, Ex, Hcode. cbn. rewrite Z.eqb_refl. exists q. split; auto.
     + apply kind_eqb_neq in Ek. destruct (find_errored c k r s e Ek Ecl He Hs Ho) as (s' & Hf & Hn & _). rewrite Hf in *. cbn [fst snd] in *.
       set (q' := set_regs (rset k r LGone (q_regs q)) q).
-      assert (Hstep : c09_step c0 tdrv q (Find k r) (Err (Registration (e_code e)), [], []) = Next q').
+      assert (Hstep : c09_step c0 tdrv full q (Find k r) (Err (Registration (e_code e)), [], []) = Next q').
       { cbn [c09_step]. rewrite Hqc, Ex, Hcode. cbn [res_is]. rewrite Z.eqb_refl. destruct k; try congruence; reflexivity. }
       exists q'. split; [exact Hstep|].
       apply (rel_frame c0 q s q' s' k r R); subst q'; cbn [set_regs q_now q_closed q_regs q_max q_hmax q_close_sent].
@@ -315,15 +317,22 @@ Proof. intros Hc I R. pose proof (do_find_frame c k r s) as F.
 Definition drop_framed (k : kind) (r : Z) (s s' : st) : Prop :=
   client_id s' = client_id s /\ now s' = now s /\ closed s' = closed s /\ close_sent s' = close_sent s /\ next_h s' = next_h s /\
   (forall k' r', k' <> k \/ r' <> r -> lookup r' (getm k' s') = lookup r' (getm k' s)) /\
-  (lookup r (getm k s') = None \/ lookup r (getm k s') = lookup r (getm k s)).
+  (lookup r (getm k s') = None \/ lookup r (getm k s') = lookup r (getm k s) \/
+   exists e', lookup r (getm k s') = Some e' /\ e_status e' = Dropped).
 
 Lemma do_release_framed k r imgs s : drop_framed k r s (fst (do_release k r imgs s)).
-Proof. unfold do_release, drop_framed. destruct (lookup r (getm k s)) eqn:E; cbn [fst].
-  - rewrite setm_client_id, setm_now, setm_closed, setm_close_sent, setm_next_h. repeat split; auto.
+Proof. unfold do_release. destruct (lookup r (getm k s)) as [e0|] eqn:E; [|unfold drop_framed; repeat split; auto].
+  assert (Hrem : drop_framed k r s (setm k (remove r (getm k (set_next_corr (next_corr s + 1) s))) (set_next_corr (next_corr s + 1) s))).
+  { unfold drop_framed. rewrite setm_client_id, setm_now, setm_closed, setm_close_sent, setm_next_h. repeat split; auto.
     + intros k' r' Hne. rewrite getm_setm. destruct (kind_eqb k' k) eqn:Ek; rewrite getm_set_next_corr; auto.
       apply kind_eqb_eq in Ek. subst. apply lookup_remove_other. destruct Hne; congruence.
-    + left. rewrite getm_setm_same. apply lookup_remove_same.
-  - repeat split; auto. Qed.
+    + left. rewrite getm_setm_same. apply lookup_remove_same. }
+  assert (Hupd : drop_framed k r s (setm k (upd r (fun e => set_obj None (set_status Dropped e)) (getm k (set_next_corr (next_corr s + 1) s))) (set_next_corr (next_corr s + 1) s))).
+  { unfold drop_framed. rewrite setm_client_id, setm_now, setm_closed, setm_close_sent, setm_next_h. repeat split; auto.
+    + intros k' r' Hne. rewrite getm_setm. destruct (kind_eqb k' k) eqn:Ek; rewrite getm_set_next_corr; auto.
+      apply kind_eqb_eq in Ek. subst. apply lookup_upd_other. destruct Hne; congruence.
+    + right. right. rewrite getm_setm_same, getm_set_next_corr, lookup_upd_same, E. cbn. eauto. }
+  destruct (ring_full s); [destruct k|]; cbn [fst]; try exact Hrem; exact Hupd. Qed.
 
 Lemma drop_framed_refl k r s : drop_framed k r s s.
 Proof. unfold drop_framed. repeat split; auto. Qed.
@@ -359,7 +368,7 @@ Lemma fold_max_nil a : fold_left Z.max (@nil Z) a = a. Proof. reflexivity. Qed.
 
 Lemma sim_drop c0 tdrv q s k r :
   inv s -> Rel c0 q s ->
-  exists q', c09_step c0 tdrv q (DropHandle k r) (snd (do_drop k r s)) = Next q' /\ Rel c0 q' (fst (do_drop k r s)).
+  exists q', c09_step c0 tdrv (ring_full s) q (DropHandle k r) (snd (do_drop k r s)) = Next q' /\ Rel c0 q' (fst (do_drop k r s)).
 Proof. intros I R. pose proof (do_drop_framed k r s) as (F1 & F2 & F3 & F4 & F5 & F6 & F7).
   destruct (closed s) eqn:Ecl.
   { destruct (do_drop_closed k r s I Ecl) as (Hcm & Hn & Hfine).
@@ -385,11 +394,11 @@ Proof. intros I R. pose proof (do_drop_framed k r s) as (F1 & F2 & F3 & F4 & F5 
   pose proof (R_pt _ _ _ R Ecl k r) as P.
   (* an unspecified registration: whatever the destructor does is accepted, the ids stay in step *)
   assert (Hany : rlookup k r (q_regs q) = Some LAny ->
-                 exists q', c09_step c0 tdrv q (DropHandle k r) (snd (do_drop k r s)) = Next q' /\ Rel c0 q' (fst (do_drop k r s))).
+                 exists q', c09_step c0 tdrv (ring_full s) q (DropHandle k r) (snd (do_drop k r s)) = Next q' /\ Rel c0 q' (fst (do_drop k r s))).
   { intros Ex. pose proof (step_cmds (mkCfg 0 0) s (DropHandle k r)) as Hcm. pose proof (step_total (mkCfg 0 0) s (DropHandle k r)) as Hfine.
     cbn [step] in Hcm, Hfine. destruct (do_drop k r s) as [s' [[res cbs] cmds]] eqn:Ed. cbn [fst snd] in *.
     destruct Hcm as [_ Hcm].
-    assert (Hq : exists m, fold_left Z.max (map cmd_corr cmds) (q_max q) = m /\ next_corr s' = m + 1 /\ q_max q <= m).
+    assert (Hq : exists m, fold_left Z.max (map cmd_corr cmds) (q_max q) = m /\ m < next_corr s' /\ q_max q <= m).
     { pose proof (R_corr _ _ _ R) as Hc. destruct Hcm as [[-> Hn]|(ty & args & -> & Hn)]; cbn [map fold_left cmd_corr].
       - exists (q_max q). repeat split; lia.
       - exists (next_corr s). repeat split; lia. }
@@ -409,15 +418,17 @@ Proof. intros I R. pose proof (do_drop_framed k r s) as (F1 & F2 & F3 & F4 & F5 
       + congruence.
       + intros k' r' Hne. split; [apply rlookup_rset_other; auto|apply F6; auto].
       + intros _. rewrite rlookup_rset_same by congruence. cbn [pt rel_entry]. rewrite Ex in P. cbn in P.
-        destruct F7 as [F7|F7]; rewrite F7; auto. }
+        destruct F7 as [F7|[F7|(e' & F7 & Hdr)]]; rewrite F7; auto. congruence. }
   assert (Hnone : do_drop k r s = (s, (Ok [0], [], [])) ->
-                  exists q', c09_step c0 tdrv q (DropHandle k r) (snd (do_drop k r s)) = Next q' /\ Rel c0 q' (fst (do_drop k r s))).
+                  exists q', c09_step c0 tdrv (ring_full s) q (DropHandle k r) (snd (do_drop k r s)) = Next q' /\ Rel c0 q' (fst (do_drop k r s))).
   { intros H. destruct (rlookup k r (q_regs q)) as [[| [h|] | | |]|] eqn:Ex; try (apply Hany; reflexivity);
       try (rewrite H; cbn [fst snd c09_step]; rewrite Hqc, Ex; exists q; split; [reflexivity|exact R]).
     (* LReady (Some h): the handle is held, so the drop does release it *)
     exfalso. cbn in P. destruct P as (Hk & e & o & He & Ho & Hu & Hh & _).
     assert (Hheld : held k r h s) by (exists o; unfold hobj; rewrite He; auto).
-    destruct (release_held k r h s Hk I Hheld) as (s' & cbs & Hd & _). rewrite Hd in H. inversion H. }
+    destruct (ring_full s) eqn:Erf.
+    - destruct (release_held_refused k r h s Hk I Hheld Erf) as (s' & cbs & Hd & _). rewrite Hd in H. inversion H.
+    - destruct (release_held k r h s Hk I Hheld Erf) as (s' & cbs & Hd & _). rewrite Hd in H. inversion H. }
   assert (Huser : (match lookup r (getm k s) with Some e => match e_obj e with Some o => o_user o = false | None => True end | None => True end) ->
                   do_drop k r s = (s, (Ok [0], [], []))).
   { intros H. apply do_drop_none. apply user_obj_none_open; auto. }
@@ -430,7 +441,25 @@ Proof. intros I R. pose proof (do_drop_framed k r s) as (F1 & F2 & F3 & F4 & F5 
   - destruct P as (e & He & _ & Ho & _). apply Hnone, Huser. rewrite He, Ho. exact Logic.I.
   - (* held *) destruct P as (Hk & e & o & He & Ho & Hu & Hh & _).
     assert (Hheld : held k r h s) by (exists o; unfold hobj; rewrite He; auto).
-    destruct (release_held k r h s Hk I Hheld) as (s' & cbs & Hd & Hn & Hnc & Hfr). rewrite Hd in *. cbn [fst snd] in *.
+    destruct (ring_full s) eqn:Erf.
+    { (* the Remove command is refused *)
+      destruct (release_held_refused k r h s Hk I Hheld Erf) as (s' & cbs & Hd & Hnc & Hfr & Hent). rewrite Hd in *. cbn [fst snd] in *.
+      eexists. split; [cbn [c09_step]; rewrite Hqc, Ex; reflexivity|].
+      apply (rel_frame c0 q s _ s' k r R); cbn [set_qmax set_regs q_now q_closed q_regs q_max q_hmax q_close_sent].
+      * exact F1.
+      * rewrite (R_now _ _ _ R). auto.
+      * rewrite (R_closed _ _ _ R). congruence.
+      * pose proof (R_corr _ _ _ R). lia.
+      * pose proof (R_h _ _ _ R). lia.
+      * rewrite (R_cs _ _ _ R). auto.
+      * lia.
+      * apply reg_ids_rset.
+      * apply uniq_rset. apply (R_uniq _ _ _ R).
+      * congruence.
+      * intros k' r' Hne. split; [apply rlookup_rset_other; auto|apply Hfr; auto].
+      * intros _. rewrite rlookup_rset_same by congruence. destruct k; try congruence; cbn [pt rel_entry]; try exact Hent;
+          destruct Hent as (e' & -> & Hst & _); congruence. }
+    destruct (release_held k r h s Hk I Hheld Erf) as (s' & cbs & Hd & Hn & Hnc & Hfr). rewrite Hd in *. cbn [fst snd] in *.
     eexists. split.
     + cbn [c09_step]. rewrite Hqc, Ex. rewrite (R_client _ _ _ R). rewrite !Z.eqb_refl.
       replace (q_max q <? next_corr s) with true by (pose proof (R_corr _ _ _ R); lia). cbn [andb]. reflexivity.
@@ -455,9 +484,9 @@ Proof. intros I R. pose proof (do_drop_framed k r s) as (F1 & F2 & F3 & F4 & F5 
 Qed.
 
 (* ---- peek, close, clock ---- *)
-Lemma sim_peek c0 tdrv q s k r :
+Lemma sim_peek c0 tdrv full q s k r :
   inv s -> Rel c0 q s ->
-  exists q', c09_step c0 tdrv q (Peek k r) (snd (do_peek k r s)) = Next q' /\ Rel c0 q' (fst (do_peek k r s)).
+  exists q', c09_step c0 tdrv full q (Peek k r) (snd (do_peek k r s)) = Next q' /\ Rel c0 q' (fst (do_peek k r s)).
 Proof. intros I R. rewrite do_peek_state. exists q. split; [|exact R].
   unfold do_peek. destruct (closed s) eqn:Ecl.
   { assert (Hqc : q_closed q = true) by (rewrite (R_closed _ _ _ R); exact Ecl).
@@ -471,18 +500,22 @@ Proof. intros I R. rewrite do_peek_state. exists q. split; [|exact R].
 
 Lemma sim_close c0 tdrv q s :
   inv s -> Rel c0 q s ->
-  exists q', c09_step c0 tdrv q Close (snd (do_close s)) = Next q' /\ Rel c0 q' (fst (do_close s)).
+  exists q', c09_step c0 tdrv (ring_full s) q Close (snd (do_close s)) = Next q' /\ Rel c0 q' (fst (do_close s)).
 Proof. intros I R. unfold do_close.
   pose proof (close_all_scalars s) as Hsc. pose proof (close_all_closed s) as Hcl. pose proof (close_all_no_hang s) as Hh.
+  pose proof (close_all_ring s) as Hrf.
   destruct (close_all s) as [[s1 cbs] hang]. cbn [fst snd] in *. subst hang.
   destruct Hsc as (S1 & S2 & S3 & S4 & S5 & S6 & _).
   destruct R. destruct (close_sent s1) eqn:Ecs; cbn [fst snd c09_step].
   - replace (q_close_sent q) with true by congruence. eexists. split; [reflexivity|].
     constructor; cbn [set_qclosed q_now q_closed q_regs q_max q_hmax q_close_sent]; try congruence; try lia; auto.
-  - replace (q_close_sent q) with false by congruence. rewrite S2, R_client0, !Z.eqb_refl.
-    replace (q_max q <? next_corr s1) with true by lia. cbn [andb]. eexists. split; [reflexivity|].
-    constructor; cbn [q_now q_closed q_regs q_max q_hmax q_close_sent]; cbn; try congruence; try lia; auto.
-    eapply Forall_impl; [|exact R_ids0]. cbn. intros. lia. Qed.
+  - replace (q_close_sent q) with false by congruence. rewrite Hrf. destruct (ring_full s).
+    + eexists. split; [reflexivity|].
+      constructor; cbn [q_now q_closed q_regs q_max q_hmax q_close_sent]; cbn; try congruence; try lia; auto.
+    + rewrite S2, R_client0, !Z.eqb_refl.
+      replace (q_max q <? next_corr s1) with true by lia. cbn [andb]. eexists. split; [reflexivity|].
+      constructor; cbn [q_now q_closed q_regs q_max q_hmax q_close_sent]; cbn; try congruence; try lia; auto.
+      eapply Forall_impl; [|exact R_ids0]. cbn. intros. lia. Qed.
 
 Lemma sim_tick c0 q s d : Rel c0 q s -> Rel c0 (mkO (q_now q + d) (q_closed q) (q_regs q) (q_max q) (q_hmax q) (q_close_sent q)) (set_now (now s + d) s).
 Proof. intros R. destruct R. constructor; cbn; auto; try congruence. Qed.
@@ -491,7 +524,7 @@ Proof. intros R. destruct R. constructor; cbn; auto; try congruence. Qed.
 Record RelC (c0 : Z) (q : ost) (s : st) : Prop := mkRelC {
   C_client : client_id s = c0;
   C_now : q_now q = now s;
-  C_corr : next_corr s = q_max q + 1;
+  C_corr : q_max q < next_corr s;
   C_h : q_hmax q <= next_h s;
   C_cs : q_close_sent q = close_sent s;
   C_ids : Forall (fun r => r <= q_max q) (reg_ids (q_regs q));
@@ -633,6 +666,9 @@ Lemma on_error_scalars corr code s :
   next_h (on_error corr code s) = next_h s /\ close_sent (on_error corr code s) = close_sent s /\ closed (on_error corr code s) = closed s.
 Proof. unfold on_error. repeat dmatch; rewrite ?setm_client_id, ?setm_now, ?setm_next_corr, ?setm_next_h, ?setm_close_sent, ?setm_closed; tauto. Qed.
 
+Lemma set_error_na code e : e_status (set_error code e) <> Awaiting.
+Proof. unfold set_error. destruct (e_status e) eqn:E; cbn; congruence. Qed.
+
 Lemma sim_error c0 q s corr code :
   inv s -> RelC c0 q s -> closed s = false -> RelC c0 (set_regs (rerror corr code (q_regs q)) q) (on_error corr code s).
 Proof. intros I R Hc. destruct (on_error_scalars corr code s) as (S1 & S2 & S3 & S4 & S5 & S6).
@@ -648,12 +684,13 @@ Proof. intros I R Hc. destruct (on_error_scalars corr code s) as (S1 & S2 & S3 &
     + assert (r = corr) by lia. subst r. rewrite Hs. specialize (C_pt0 Hc k corr).
       destruct (rlookup k corr (q_regs q)) as [x|]; cbn [option_map pt] in *.
       * destruct x as [t a1 a2|[h|] d1 d2 d3|cd| |]; cbn [err_tr rel_entry] in *.
-        -- destruct C_pt0 as (e & -> & _ & Ho & _). cbn. eexists. split; [reflexivity|]. cbn. auto.
-        -- destruct C_pt0 as (_ & e & o & -> & _). cbn. congruence.
-        -- destruct C_pt0 as (e & -> & _). cbn. congruence.
-        -- destruct C_pt0 as (e & -> & _). cbn. congruence.
+        -- destruct C_pt0 as (e & -> & Hst & Ho & _). cbn [option_map]. rewrite set_error_live by congruence.
+           eexists. split; [reflexivity|]. cbn. auto.
+        -- destruct C_pt0 as (_ & e & o & -> & _). cbn [option_map]. apply set_error_na.
+        -- destruct C_pt0 as (e & -> & _). cbn [option_map]. apply set_error_na.
+        -- destruct C_pt0 as (e & -> & _). cbn [option_map]. apply set_error_na.
         -- rewrite C_pt0. reflexivity.
-        -- destruct (lookup corr (getm k s)); cbn; auto. congruence.
+        -- destruct (lookup corr (getm k s)); cbn [option_map]; auto. apply set_error_na.
       * rewrite C_pt0. reflexivity.
     + rewrite on_error_other by lia. apply C_pt0. auto. Qed.
 
@@ -856,9 +893,9 @@ Proof. unfold qc. destruct (existsb is_close_cb cbs); cbn; auto. Qed.
 Lemma cb_eqb_refl_new c : is_new_cb c = true -> cb_eqb c c = true.
 Proof. destruct c; cbn; intros H; try discriminate; rewrite !Z.eqb_refl; reflexivity. Qed.
 
-Lemma sim_dowork c0 tdrv c q s b :
+Lemma sim_dowork c0 tdrv full c q s b :
   inv s -> Rel c0 q s ->
-  exists q', c09_step c0 tdrv q (DoWork b) (snd (do_work c b s)) = Next q' /\ Rel c0 q' (fst (do_work c b s)).
+  exists q', c09_step c0 tdrv full q (DoWork b) (snd (do_work c b s)) = Next q' /\ Rel c0 q' (fst (do_work c b s)).
 Proof. intros I R.
   pose proof (step_close_count c s (DoWork b) I) as Hcount. pose proof (step_closed_mono c s (DoWork b) I) as Hmono. cbn [step] in Hcount, Hmono.
   destruct b.
@@ -914,25 +951,27 @@ Proof. intros I R.
 (* ---- every operation, every history ---- *)
 Lemma sim_step c0 tdrv tis q s o :
   inv s -> Rel c0 q s ->
-  exists q', c09_step c0 tdrv q o (snd (step (mkCfg tdrv tis) s o)) = Next q' /\ Rel c0 q' (fst (step (mkCfg tdrv tis) s o)).
+  exists q', c09_step c0 tdrv (ring_full s) q o (snd (step (mkCfg tdrv tis) s o)) = Next q' /\ Rel c0 q' (fst (step (mkCfg tdrv tis) s o)).
 Proof. intros I R. destruct o; cbn [step].
-  - apply (sim_add c0 tdrv (mkCfg tdrv tis)); auto.
-  - apply (sim_find c0 tdrv (mkCfg tdrv tis)); auto.
+  - apply (sim_add c0 tdrv (ring_full s) (mkCfg tdrv tis)); auto.
+  - apply (sim_find c0 tdrv (ring_full s) (mkCfg tdrv tis)); auto.
   - apply sim_drop; auto.
   - apply sim_peek; auto.
   - apply sim_close; auto.
   - cbn [fst snd c09_step]. eexists. split; [reflexivity|]. apply sim_tick. exact R.
   - cbn [fst snd c09_step]. exists q. split; [reflexivity|]. destruct R. constructor; auto.
   - cbn [fst snd c09_step]. exists q. split; [reflexivity|]. destruct R. constructor; auto.
+  - cbn [fst snd c09_step]. exists q. split; [reflexivity|]. destruct R. constructor; auto.
   - apply sim_dowork; auto. Qed.
 
 Lemma oracle_run c0 tdrv tis ops : forall q s,
-  inv s -> Rel c0 q s -> c09_run c0 tdrv q ops (snd (run (mkCfg tdrv tis) s ops)) = true.
+  inv s -> Rel c0 q s -> c09_run c0 tdrv (ring_full s) q ops (snd (run (mkCfg tdrv tis) s ops)) = true.
 Proof. induction ops as [|o ops IH]; intros q s I R; cbn; auto.
   destruct (sim_step c0 tdrv tis q s o I R) as (q' & Hs & R'). pose proof (step_inv (mkCfg tdrv tis) s o I) as I'.
+  pose proof (step_ring_full (mkCfg tdrv tis) s o) as Hrf.
   destruct (step (mkCfg tdrv tis) s o) as [s1 x]. cbn [fst snd] in *.
-  specialize (IH q' s1 I' R'). destruct (run (mkCfg tdrv tis) s1 ops) as [s2 xs]. cbn [snd] in *. rewrite Hs. exact IH. Qed.
+  specialize (IH q' s1 I' R'). destruct (run (mkCfg tdrv tis) s1 ops) as [s2 xs]. cbn [snd] in *. rewrite Hs. rewrite <- Hrf. exact IH. Qed.
 
 (* the predicate used to judge the implementation holds on the model's own observations, for every history *)
 Theorem c09_oracle_model c0 now0 tdrv tis ops : holds_c09 c0 now0 tdrv tis ops (run_obs c0 now0 tdrv tis ops) = true.
-Proof. unfold holds_c09, run_obs. apply oracle_run; [apply init_inv|apply rel_init]. Qed.
+Proof. unfold holds_c09, run_obs. apply (oracle_run c0 tdrv tis ops (oinit c0 now0) (init c0 now0)); [apply init_inv|apply rel_init]. Qed.
